@@ -65,6 +65,21 @@ CLAIMS = {
    text="Decides that every lookup path and every normalisation treats a class as the same set: no function that inspects or rewrites ranges/categories ignores the subtraction, canonicalize normalises only under sub == nil, merge/enumeration operands are tested (R-SUB); callers of GetSetChars honour negation (R-NEGCHARS); the ASCII fast path is charInSlow tabulated over exactly 0..127, consulted only for 0 <= ch < 128, never copied and never followed by a mutation (R-BITMAP); a subtraction is parsed with the same case flag as its class (R-CASERECUR); a category name is accepted only if a table exists for it (R-CATTABLE). It does NOT decide membership itself: range arithmetic in canonicalize, the lowercase tables, category evaluation order, singleton values.",
    note="Trusted: the exemption table of builders/serialisers (one reason per function; makeAnything/addSet/addLowercase exemptions carry side conditions that are checked).",
    ref="DESIGN.md §4 C16"),
+ "C17": dict(
+   technique="static analysis: argument-shape checks on the writer's emit sites, SSA value-flow of group numbers to slot indexes, sibling agreement of capture-node creation, guard dominance in the slot-assignment loop",
+   text="Decides that a user-visible group number reaches a capture-slot index only through the number->slot maps: every Capturemark/Ref/Testref operand is wrapped in mapCapnum, NewReplacerData maps $n through caps, GroupByNumber maps through sparseCaps before indexing and is only ever given a group number inside the module, initMatch builds a sparse Match exactly when the Regexp has a caps map (R-SLOT); every capture node the main parse creates accounts for its slot like the pre-scan does (R-CAPNODE); a named group gets the next number that is provably not taken (R-SKIPTAKEN). It does NOT decide that the pre-scan and the main parse assign the same numbers for every pattern, nor name ordering and duplicate-name rules.",
+   note="Trusted: the set of group-carrying opcodes {Capturemark, Ref, Testref} is named in the rule.",
+   ref="DESIGN.md §4 C17"),
+ "C18": dict(
+   technique="static analysis: who-reads classification of the compile-time option words (AST parent shape + constant masks), push/pop typestate of the option stack by path enumeration in both parser passes",
+   text="Decides that nothing outside the parser decides an inline-settable option from the compile-time word: every read of Regexp.options / RegexTree.Options / ParseOptions.RegexOptions / compileConfig.regexOptions is handed on whole to initialise a parser, tree or Regexp, or is masked with a constant built only from options that cannot be set inline (R-TOPONLY); and that in both the main parse and the capture pre-scan the option stack is pushed once per opened group, restored by popOptions only at `)`, and kept (popKeepOptions) for option-only groups (R-OPTSTACK). It does NOT decide that (?O)..., (?O:...) and the compile-time flag produce the same tree.",
+   note="Trusted: the list of inline-settable options {IgnoreCase, Multiline, Singleline, ExplicitCapture, IgnorePatternWhitespace} comes from the property; helper methods that read p.options (useOptionX …) read the parser's CURRENT word and are therefore in the allowed place.",
+   ref="DESIGN.md §4 C18"),
+ "C19": dict(
+   technique="static analysis: evaluation of the writer's decision tree and the reader's switch from the AST (constant case labels, string literals, value intervals from branch conditions, padding idioms) and comparison of the two tables; dominance of the escaping loop; byte-offset -> rune-position taint on SSA",
+   text="Decides that the escape writer and the escape reader agree as tables: each named escape is read back as the rune it was written for, the number of hex digits emitted after \\x and \\u on each path (from the value interval and padding) equals the fixed width the reader consumes, every bare-backslash escape is returned unchanged by the reader's default arm under every option set, and every printable ASCII character the parser classifies as special is in meta (R-CODEC); Escape cannot return without having escaped every rune (R-ESCALL); a byte offset from a string search never becomes a rune position or the parser position (R-UNITS). It does NOT decide that ^Escape(s)$ matches exactly s — that needs the parser and the engine.",
+   note="Trusted: ASCII printable range 0x20..0x7E; padding idioms recognised: `if len(s) == 1 { write '0' }` and strings.Repeat(\"0\", W-len(s)) — an unrecognised idiom is reported as a width mismatch rather than ignored.",
+   ref="DESIGN.md §4 C19"),
 }
 
 NOT_APPLICABLE = {
